@@ -302,3 +302,14 @@ theorem C07_facts_validation_is_enabled_before_growing :
   validating_operations_enable_validation_first
 
 end Gtree
+
+namespace Gtree
+
+/-- **C07 (facts: the massive tree).**  The massive tree's Mkdir and Verify operations, from Markdown and from a root,
+    enable the grower's validation before the grower stage is started. -/
+theorem C07_facts_massive_validation_is_enabled_before_growing :
+    ["mkdir", "mkdirProgrammably", "verify", "verifyProgrammably"].all
+      (fun op => calledBefore "grower.enableValidation" "grower.grow" (lookupL op Facts.treePipelineCalls)) = true :=
+  massive_operations_validate_then_grow_then_use.1
+
+end Gtree
